@@ -93,8 +93,9 @@ def replay_conv(job):
         xv = A.mag_float(x)
         if rule == "reject":
             # the first magnitude through both entry points, the others through one of them in turn
-            r1 = A.conv_value(x, ua, ub) if k == 0 or k % 2 == 1 else ("err", "", True)
-            r2 = A.conv_to(x, ua, ub) if k == 0 or k % 2 == 0 else ("err", "", True)
+            alt = (k + len(rec["a"]) + len(rec["b"])) % 2          # which entry point takes the k-th further magnitude
+            r1 = A.conv_value(x, ua, ub) if k == 0 or alt == 1 else ("err", "", True)
+            r2 = A.conv_to(x, ua, ub) if k == 0 or alt == 0 else ("err", "", True)
             nobs += (2 if k == 0 else 1)
             if r1[0] == "val" or r2[0] == "val":
                 accepted_any = True
@@ -300,7 +301,8 @@ def run(replay=None):
     def xs_for(rec, full):
         if rec["rule"] == "reject":
             # a refusal does not depend on the magnitude: a non-zero value, zero, negative zero, an all-zero array
-            return [rnd.choice(mags[1:4])] + zeros + [zarr] + ([arr] if full else [])
+            # (quick: the non-zero value and one of the three zero magnitudes per pair, all three spread over the pairs)
+            return [rnd.choice(mags[1:4])] + (zeros + [zarr] + [arr] if full else [rnd.choice(zeros + [zarr])])
         if rec["rule"] in C04_RULES:
             # all magnitude kinds through the same target in a seeded order, then float and array once more:
             # the result of a conversion must not depend on the kinds converted before (history)
